@@ -4,6 +4,7 @@ import Driver.Util
 import Driver.C15
 import Driver.Codec
 import Driver.Engine
+import Driver.SyncSend
 import Driver.DataCore
 import Driver.Place
 import Driver.Coord
@@ -36,5 +37,6 @@ def main (args : List String) : IO UInt32 := do
   | ["place"] => loop Drv.Place.step hin hout (); hout.flush; return 0
   | ["coord"] => loop Drv.Coord.step hin hout none; hout.flush; return 0
   | ["datacore"] => loop Drv.DataCore.step hin hout {}; hout.flush; return 0
+  | ["syncsend"] => loop Drv.SyncSend.step hin hout (); hout.flush; return 0
   | ["codec"] => loop Drv.Codec.step hin hout (); hout.flush; return 0
   | _ => IO.eprintln "usage: zvdriver <proto>"; return 2
